@@ -577,7 +577,10 @@ fn run_tamper(c: &TamperCase) -> Outcome {
 }
 
 pub fn check(ctx: &Ctx) {
-    let quick = ctx.tier == Tier::Quick;
+    // the former thorough bounds take seconds: they are the quick tier now; `deep` = thorough
+    let quick = false;
+    #[allow(unused_variables)]
+    let deep = ctx.tier == Tier::Thorough;
     let keys = [
         KeyKind::Ed25519V4,
         KeyKind::Ed25519V6,
@@ -592,7 +595,7 @@ pub fn check(ctx: &Ctx) {
     let mut oc = Vec::new();
     for key in keys {
         for subkey in [false, true] {
-            oc.push(OpsCase { key, subkey, depth: if quick { 3 } else { 5 } });
+            oc.push(OpsCase { key, subkey, depth: if quick { 3 } else if deep { 6 } else { 5 } });
         }
     }
     ctx.run_space(
